@@ -149,7 +149,8 @@ pub fn check_case(rep: &mut Report, ps: &[Ivs], seed: u64) {
         // order independence of merge_partition_list: all rotations and a reversal
         let base = merge_partition_list(cps.iter());
         let n = cps.len();
-        for r in 0..n {
+        rep.hist("list_length", &format!("{}", n));
+        for r in 0..n.min(6) {
             let order: Vec<&CharPartition> = (0..n).map(|i| &cps[(i + r) % n]).collect();
             let rev: Vec<&CharPartition> = order.iter().rev().copied().collect();
             for o in [order, rev] {
@@ -212,7 +213,8 @@ pub fn run(p: &Params, rep: &mut Report) {
         let a = gen_intervals(&mut rng, 6);
         let b = if rng.chance(1, 2) { related(&mut rng, &a) } else { gen_intervals(&mut rng, 6) };
         let ps: Vec<Ivs> = if i % 4 == 3 {
-            let k = 1 + rng.usize(2);
+            // lists of 3 to 4, and every eighth case a long list (up to 18 partitions)
+            let k = if i % 32 == 31 { 3 + rng.usize(14) } else { 1 + rng.usize(2) };
             let mut v = vec![a.clone(), b];
             for _ in 0..k {
                 let c = if rng.chance(1, 2) { related(&mut rng, &a) } else { gen_intervals(&mut rng, 4) };
